@@ -61,6 +61,7 @@ def run(F, R, tier, cfg):
     PN.check_entries(F, R, "C16", ents, cfg)
     matcher_rules(F, R)
     first_match_rule(F, R)
+    hop_predicate_roundtrip_rule(F, R)
 
 
 H = POL + "hop_pattern::HopPatternExpression::"
@@ -231,3 +232,38 @@ def first_match_rule(F, R):
             if not ok:
                 R.violation("FIRST-MATCH", p, "ACL evaluation in %s is not first-match: %s" % (short(p), why), c.span.loc)
     R.floor("FIRST-MATCH", n, 1, "AclEntry::matches calls in AclPolicy::matches")
+
+
+HP_FROMSTR = "<sciparse::scion::path::policy::types::HopPredicate as core::str::traits::FromStr>::from_str"
+HP_ADT = "sciparse::scion::path::policy::types::HopPredicate"
+
+
+def hop_predicate_roundtrip_rule(F, R):
+    """RT-hop-predicate: "hop predicates survive printing and re-parsing".  The printed grammar is ISD[-AS][#IF]; the parser
+    reads an interface part only after an AS part.  So a parsed predicate that carries an interface predicate must carry
+    an AS (Some) — otherwise Display prints `ISD#IF`, which the parser rejects.  Decided on every Ok(HopPredicate{..}) the
+    parser builds: `interfaces` is the constant Any, or `asn` is structurally Some(parsed AS) (not a value-dependent Option)."""
+    b = F.body(HP_FROMSTR)
+    adt = F.adts.get(HP_ADT)
+    if b is None or adt is None:
+        R.anchor_missing(HP_FROMSTR if b is None else HP_ADT)
+        return
+    R.fn(HP_FROMSTR)
+    names = [f[0] for f in adt["variants"][0][2]]
+    n = 0
+    for bb in sorted(b.live_blocks()):
+        for st in b.stmts(bb):
+            if st[0] == "=" and st[2][0] == "agg" and st[2][1][0] == "adt" and st[2][1][1] == HP_ADT:
+                n += 1
+                ops = dict(zip(names, st[2][2]))
+                oa = strip_sites(b.origin(ops["asn"]))
+                oi = strip_sites(b.origin(ops["interfaces"]))
+                any_if = "InterfacesPredicate::Any" in fmt(oi, 200) and not any(x[0] == "call" for x in walk(oi))
+                some_asn = oa[0] == "agg" and oa[1][0] == "adt" and oa[1][2] == "Some"
+                ok = any_if or some_asn
+                R.ob("RT-hop-predicate", "parsed predicate: interfaces=%s, asn=%s" % ("Any" if any_if else "parsed", fmt(oa, 60)), ok, True,
+                     {"rule": "RT-hop-predicate", "loc": b.span_of(st[3]).loc, "asn": fmt(oa, 120), "interfaces": fmt(oi, 120), "holds": ok})
+                if not ok:
+                    R.violation("RT-hop-predicate", HP_FROMSTR, "the parser can build a predicate with an interface part whose AS part is not necessarily present (%s): "
+                                "it prints as ISD#IF, which the parser itself rejects" % fmt(oa, 100), b.span_of(st[3]).loc)
+    R.floor("RT-hop-predicate", n, 3, "HopPredicate constructions in FromStr")
